@@ -16,6 +16,10 @@ pub const SIG_ZERO_REWARD: &str = "C17:dispatch_rewards:zero_amount_transfer_to_
 #[derive(Default)]
 pub struct C19 {}
 
+fn dispatcher_swaps_extra(c: &Ctx) -> bool {
+    crate::monitors::c17::dispatcher_cfg(c.w_pre).map(|x| x.swap_denoms.iter().any(|d| d == UATOM)).unwrap_or(false)
+}
+
 /// exact accrued rewards of all holders, in units of 1e-18 reward coin
 pub fn accrued_atomics(s: &Snap) -> Uint256 {
     let mut t = Uint256::zero();
@@ -174,6 +178,57 @@ impl C19 {
             let gain = post.bal(KEEPER, d) - pre.bal(KEEPER, d);
             if gain != to_keeper.get(d).cloned().unwrap_or(0) {
                 out.violation(P, "keeper_fee", format!("keeper's {} balance grew by {} but {} was sent", d, gain, to_keeper.get(d).cloned().unwrap_or(0)));
+            }
+        }
+        // 5b. the split follows the bonded stake the hub books for the two pools: what the dispatcher held in the
+        // stSei reward coin when it dispatched equals (total reward value in that coin) x stSei pool / (both pools),
+        // within the rounding of the share, the inverse price and two swap floors
+        {
+            let price = c.w_pre.price.atomics().u128();
+            let (pb, ps) = (pre.raw_pool_b, pre.raw_pool_s);
+            if pb + ps > 0 && price > 0 {
+                use cosmwasm_std::Uint512;
+                let other_kusd = if c.cfg.extra_denom && dispatcher_swaps_extra(c) {
+                    let mut x = pre.bal(DISPATCHER, UATOM);
+                    for e in tr.evs() {
+                        if let Ev::RewardPaid { to, denom, amount, .. } = e {
+                            if to == DISPATCHER && denom == UATOM {
+                                x += amount;
+                            }
+                        }
+                    }
+                    mul_rate(x, c.w_pre.other_prices[UATOM].atomics().u128())
+                } else {
+                    0
+                };
+                let mut u0 = pre.bal(DISPATCHER, USEI);
+                let mut k0 = pre.bal(DISPATCHER, KUSD) + other_kusd;
+                for e in tr.evs() {
+                    if let Ev::RewardPaid { to, denom, amount, .. } = e {
+                        if to == DISPATCHER {
+                            if denom == USEI {
+                                u0 += amount;
+                            } else if denom == KUSD {
+                                k0 += amount;
+                            }
+                        }
+                    }
+                }
+                let den = Uint512::from(price) * Uint512::from(pb + ps);
+                let target_num = (Uint512::from(u0) * Uint512::from(price) + Uint512::from(k0) * Uint512::from(E18)) * Uint512::from(ps);
+                let lhs = Uint512::from(held_usei) * den;
+                let diff = if lhs > target_num { lhs - target_num } else { target_num - lhs };
+                let tol = 4 + 2 * mul_div_ceil(E18, 1, price).max(1);
+                if diff > Uint512::from(tol) * den {
+                    out.violation(
+                        P,
+                        "split_by_booked_stake",
+                        format!("rewards ({} usei, {} kusd) with booked pools (bSei {}, stSei {}) at price {}: the stSei side received {} usei, more than {} away from its pro-rata share", u0, k0, pb, ps, c.w_pre.price, held_usei, tol),
+                    );
+                }
+                if pb > 0 && ps > 0 && u0 + k0 > 1000 {
+                    out.count("c19.updates_split_checked_both_pools");
+                }
             }
         }
         // 6. bSei holders' claimable total grows by what was delivered (plus the not-yet-indexed backlog), within dust
